@@ -133,7 +133,12 @@ def r15_5_r3_json(ctx):
             if not seg_line:
                 continue
             for seg in seg_line.split(","):
-                ds = ref_vlq_decode(seg)
+                try:
+                    ds = ref_vlq_decode(seg)
+                except ValueError:
+                    # a digit outside the Revision-3 base64 alphabet: no conforming consumer can read this map
+                    got[(gl, gcol)] = f"<segment `{seg}` holds a character outside A-Za-z0-9+/>"
+                    continue
                 gcol += ds[0]
                 if len(ds) >= 4:
                     spos, sline, scol = spos + ds[1], sline + ds[2], scol + ds[3]
@@ -381,6 +386,33 @@ def r15_8_no_shared_expression_objects(ctx):
     ctx.rule_text_suffix = None
 
 
+def r15_9_frame_classification(ctx):
+    ctx.rule("R15.9", "a user's frame is never taken for a compiler frame: _is_compilation_gateway answers true only for the compiler's own functions in the compiler's own files - a function of the same name in a user file, or another function in a compiler file, is a user / ordinary frame (expressions built there keep their own line); the gateway table names functions that exist in the files it names")
+    sf = ctx.model.find_class("StackFrame", "pyteal.stack_frame")
+    f = q.need(sf.methods.get("_is_compilation_gateway"), "StackFrame._is_compilation_gateway vanished")
+    ctx.analysed(f.fq)
+    node = sf.class_attrs.get("_compilation_gateways")
+    q.need(isinstance(node, ast.Dict) and all(isinstance(k, ast.Constant) and isinstance(v, ast.Constant) for k, v in zip(node.keys, node.values)), "StackFrame._compilation_gateways is not a literal table")
+    table = {k.value: v.value for k, v in zip(node.keys, node.values)}
+    cls_sym = Sym("StackFrame", attrs={"_compilation_gateways": dict(table)})
+    for fn, path in table.items():
+        mod = next((m for m in ctx.model.modules.values() if m.rel == path), None)
+        ctx.check(mod is not None and any(x.name == fn for x in mod.all_funcs), "R15.9", f"gateway-table[{fn}]", f"the table names `{fn}` in `{path}`; no such function exists there", sf.where, fact={"file": path})
+    frames = []
+    for fn, path in table.items():
+        frames += [(fn, "/site-packages/" + path, True), (fn, "/home/user/project/app.py", False), (fn, "/home/user/project/" + path.split("/")[-1], False), ("helper", "/site-packages/" + path, False)]
+    frames += [("main", "/home/user/project/app.py", False)]
+    for fn, filename, want in frames:
+        fi = Sym("frame-info", attrs={"function": fn, "filename": filename})
+        try:
+            val, _ = run_function(f.node, {"cls": cls_sym, "f": fi}, lambda e, me: (_ for _ in ()).throw(Unknown()), f.fq)
+            got = bool(val)
+        except Raised as r:
+            got = f"raises {r.exc_text[:40]}"
+        ctx.check(got is want, "R15.9", f"_is_compilation_gateway[{fn} in {filename}]", f"a frame of function `{fn}` in `{filename}` is classified as {'a compiler gateway' if got is True else got if got is not False else 'an ordinary frame'}; expected {'gateway' if want else 'ordinary frame'}", f.where, fact={"gateway": got})
+    ctx.require_min("R15.9", 10)
+
+
 def run(ctx):
     r15_4_vlq(ctx)
     r15_5_r3_json(ctx)
@@ -388,7 +420,11 @@ def run(ctx):
     r15_2_validators(ctx)
     r15_3_one_item_per_line(ctx)
     r15_6_recorded_path(ctx)
+    from rules import c18 as _c18
+
+    _c18.r18_1_annotations_delegate(ctx)  # one comment op per line as the source mapper counts lines (shared with C18)
     r15_8_no_shared_expression_objects(ctx)
+    r15_9_frame_classification(ctx)
     from rules.lowering_sem import r15_7_relowering
 
     r15_7_relowering(ctx)
